@@ -343,7 +343,7 @@ fn run_predecessors(case: &Case) {
         return;
     }
     let (input, _) = case.input();
-    let h = hash128(&input).0 ^ 0x9E37_79B9_7F4A_7C15;
+    let h = hash128(&input).0 ^ 0x9E37_79B9_7F4A_7C15 ^ case_salt();
     if h % 6 != 0 {
         return;
     }
@@ -545,11 +545,21 @@ fn aux_case(r: &mut Rng, variant: u64, h: u64, parent_has_tls: bool) -> Case {
 /// the largest packet it is willing to take, its connection character set, the reserved bytes - must
 /// not change how its commands are served, so half of those cases (chosen by their own input) get
 /// other values in these fixed-width fields. Lengths and offsets stay as they are.
+/// Entropy of the case being run (group tag and index): many checks send the very same client bytes
+/// in every case (what differs is what the backend answers), so choices made "by the case's own
+/// input" mix this in. Deterministic: a replay runs the same group and index.
+fn case_salt() -> u64 {
+    CURRENT_CASE.with(|c| {
+        let c = c.borrow();
+        hash128(c.0.as_bytes()).0 ^ mix64(c.1.wrapping_mul(0x9E37_79B9_7F4A_7C15))
+    })
+}
+
 fn vary_default_handshake(case: &Case, input: &mut [u8]) {
     if case.raw_input.is_some() || case.handshake != default_handshake() || input.len() < 4 + 32 {
         return;
     }
-    let h = hash128(&input[..]).0 ^ 0x2545_F491_4F6C_DD1D;
+    let h = hash128(&input[..input.len().min(4096)]).0 ^ 0x2545_F491_4F6C_DD1D ^ case_salt();
     if h % 2 == 0 {
         return;
     }
@@ -594,7 +604,7 @@ pub fn run_case(case: &Case) -> Obs {
     world.log_reads = case.log_reads;
     if !case.no_interloper && !cfg!(miri) && !IN_PRELUDE.with(|f| f.get()) {
         // a sixth of the cases: another thread serves another connection while this one waits in a read
-        let hi = hash128(&world.input).0 ^ 0x517C_C1B7_2722_0A95;
+        let hi = hash128(&world.input).0 ^ 0x517C_C1B7_2722_0A95 ^ case_salt();
         if hi % 6 == 1 {
             // mostly at one of the first reads (just behind the handshake, between the first commands)
             let k = if (hi >> 4) % 4 != 0 { 1 + (hi >> 8) % 3 } else { 1 + (hi >> 8) % 12 };
